@@ -63,3 +63,45 @@ def gapFile (pad : Nat) (file : Bytes) : Option Bytes :=
   | _ => none
 
 end PQ
+
+namespace PQ
+open PQ.Thrift
+
+private def footerOf (file : Bytes) : Option (List (Nat × TVal) × Nat) :=
+  if file.length < 12 then none else
+  let size := fromLE ((file.drop (file.length - 8)).take 4)
+  if size + 12 > file.length then none else
+  let fstart := file.length - (size + 8)
+  match decVal tStruct (size + 8) (file.drop fstart) with
+  | some (.struct fs, _) => some (fs, fstart)
+  | _ => none
+
+private def shiftChunkM (d : Nat) : TVal → TVal
+  | .struct fs =>
+    .struct (fs.map fun (k, v) =>
+      if k = 2 then (k, match v with | .int ty n => .int ty (n + d) | v => v)
+      else if k = 3 then (k, match v with
+        | .struct ms => .struct (ms.map fun (j, w) => if j = 9 ∨ j = 10 ∨ j = 11 then (j, match w with | .int ty n => .int ty (n + d) | w => w) else (j, w))
+        | v => v)
+      else (k, v))
+  | v => v
+
+/-- `mergeFiles a b`: the row groups of `b` appended to those of `a` under ONE footer (schema and the other
+footer members of `a`; `num_rows` added; the offsets of `b`'s chunks shifted) — what `parquet-tools merge`
+does. The two files may use different codecs: the codec is a property of each column chunk. Protocol glue,
+not part of any theorem. -/
+def mergeFiles (a b : Bytes) : Option Bytes :=
+  match footerOf a, footerOf b with
+  | some (fa, sa), some (fb, sb) =>
+    match fa.lookup 4, fb.lookup 4, fa.lookup 3, fb.lookup 3 with
+    | some (.list e ra), some (.list _ rb), some (.int ty na), some (.int _ nb) =>
+      let d := sa - 4
+      let rb' := rb.map fun rg => match rg with
+        | .struct fs => .struct (fs.map fun (k, v) => if k = 1 then (k, match v with | .list e2 cs => .list e2 (cs.map (shiftChunkM d)) | v => v) else (k, v))
+        | v => v
+      let footer := (TVal.struct (fa.map fun (k, v) => if k = 4 then (k, .list e (ra ++ rb')) else if k = 3 then (k, .int ty (na + nb)) else (k, v))).enc
+      some (a.take sa ++ (b.drop 4).take (sb - 4) ++ footer ++ le32 footer.length ++ [80, 65, 82, 49])
+    | _, _, _, _ => none
+  | _, _ => none
+
+end PQ
